@@ -2,8 +2,12 @@
    Every statement holds for EVERY codec (message type, descriptor type, options, marshal, unmarshal
    are universally quantified) and every pair of registries (finite maps from full names to what
    they declare); the codec's own laws enter as explicit premises: `round trip` is the statement
-   of C01, `never panics` the statement of C06 (and protobuf-go's decoder for dynamicpb). *)
+   of C01, `never panics` the statement of C06 (and protobuf-go's decoder for dynamicpb).
+   The second half (theorems named pulsar_...) closes the loop: the same model instantiated with the faithful pulsar codec
+   model on schemas and values (Proofs/AnyUtilPulsar.v), the codec premises discharged by the proved
+   theorems of C01, C03, C04 and C06, so that nothing about the codec is assumed any more. *)
 From CP Require Import Bytes Schema AnyUtil AnyUtilProofs AnyUtilDemo.
+From CP Require Import Extra UnkOk RefDecode AnyUtilPulsar.
 
 (* the type URL is exactly "/" ++ full name: no host in front *)
 Theorem pack_url : forall (msg desc opts : Type) (dname : desc -> str) (descr_of : msg -> desc)
@@ -170,4 +174,138 @@ Example demo_non_messages :
   demo_unpack None None None = Err /\ demo_unpack_before_fix None None None = Panic /\
   demo_unpack (any_of [x68; x2f; x70; x2e; x41]) None None = Ok (false, (0%nat, VMsg [VInt 0; VBytes []] [])) /\
   demo_unpack (any_of [x68; x2f; x70; x2e; x41]) None (Some []) = Err.
+Proof. vm_compute. repeat split. Qed.
+
+(* ================= end to end on the pulsar codec model (Proofs/AnyUtilPulsar.v) =================
+   A message is (index mid in the schema, value v); its descriptor is mid, its full name [names mid];
+   options are the Deterministic flag.  p_pack / p_marshal_from / p_unpack are pack / marshal_from / unpack of
+   Model/AnyUtil.v with marshal := Codec.pulsar_marshal and, for the registry's generated type,
+   unmarshal := Decode.pulsar_unmarshal (fresh target, DiscardUnknown off); the decoder behind a dynamicpb message
+   (files route) is the last parameter: dyn_pulsar sch = the pulsar loop, dyn_ref sch = RefDecode.ref_unmarshal
+   (the reference decoder of C03, protobuf-go's generic path).
+   Bounds needed, all inherited from the codec theorems and stated in each theorem:
+     wf sch                                           (C01, C04, C06: the schema is well-formed)
+     length (emit sch det mid v) < 2^64                (C04: the encoding fits in memory) for packing,
+                                 < 2^63                (C01: Go slice lengths are signed) for the round trip
+     wt_msg sch mid v, unknowns_okb sch mid v          (C01: the value is well-typed, its unknown bytes parse)
+     val_depth v < 9999                                (C01: below the decoder's recursion limit of 10000)
+     valid_name (names mid)                            (no '/' in a full name)
+     registries name message types of the schema      (C06: the decoder is total on indexes < length sch)
+     length (value a) < 2^63                           (C06: termination of the model's fuel) *)
+
+(* packing succeeds on EVERY value, well-typed or not, and yields exactly "/" ++ name and the encoding *)
+Theorem pulsar_pack : forall (sch : schema) (names : nat -> str), wf sch = true ->
+  forall (det : bool) (mid : nat) (v : val),
+  (N.of_nat (length (emit sch det mid v)) < two64)%N ->
+  p_pack sch names det (mid, v) = Ok {| type_url := slash :: names mid; value := emit sch det mid v |}.
+Proof. exact P_pack. Qed.
+
+(* hence MarshalFrom into an existing Any never fails on a generated message: only a nil source does *)
+Theorem pulsar_marshal_from_succeeds : forall (sch : schema) (names : nat -> str), wf sch = true ->
+  forall (a0 : any) (det : bool) (mid : nat) (v : val),
+  (N.of_nat (length (emit sch det mid v)) < two64)%N ->
+  p_marshal_from sch names (Some a0) (Some (mid, v)) det =
+  (Ok tt, Some {| type_url := slash :: names mid; value := emit sch det mid v |}).
+Proof. exact P_marshal_from_ok. Qed.
+
+(* unpack (pack v) through the type registry = the generated type holding norm v (non-deterministic marshal),
+   or a value equal to norm v up to map order (deterministic marshal); whatever decoder dynamicpb has *)
+Theorem pulsar_unpack_pack_types : forall (sch : schema) (names : nat -> str), wf sch = true ->
+  forall (dynu : nat -> list byte -> outcome val) (gt gf : registry nat) (fr tr : option (registry nat))
+         (det : bool) (mid : nat) (v : val) (a : any),
+  wt_msg sch mid v = true -> unknowns_okb sch mid v = true ->
+  (N.of_nat (val_depth v) < 9999)%N -> (N.of_nat (length (emit sch det mid v)) < two63)%N ->
+  valid_name (names mid) ->
+  p_pack sch names det (mid, v) = Ok a ->
+  lookup nat (resolve nat tr gt) (names mid) = Some (EMessage mid) ->
+  exists r, p_unpack sch names dynu gt gf (Some a) fr tr = Ok (false, (mid, r)) /\
+            (if det then canon r = canon (norm sch mid v) else r = norm sch mid v).
+Proof. exact Pulsar_unpack_pack_types. Qed.
+
+(* ... through the file registry when the type registry lacks the type, the dynamic message decoded by the pulsar loop *)
+Theorem pulsar_unpack_pack_files : forall (sch : schema) (names : nat -> str), wf sch = true ->
+  forall (gt gf : registry nat) (fr tr : option (registry nat)) (det : bool) (mid : nat) (v : val) (a : any),
+  wt_msg sch mid v = true -> unknowns_okb sch mid v = true ->
+  (N.of_nat (val_depth v) < 9999)%N -> (N.of_nat (length (emit sch det mid v)) < two63)%N ->
+  valid_name (names mid) ->
+  p_pack sch names det (mid, v) = Ok a ->
+  lookup nat (resolve nat tr gt) (names mid) = None ->
+  lookup nat (resolve nat fr gf) (names mid) = Some (EMessage mid) ->
+  exists r, p_unpack sch names (dyn_pulsar sch) gt gf (Some a) fr tr = Ok (true, (mid, r)) /\
+            (if det then canon r = canon (norm sch mid v) else r = norm sch mid v).
+Proof. exact Pulsar_unpack_pack_files. Qed.
+
+(* ... and decoded by the REFERENCE decoder: whenever it accepts the packed bytes as a well-typed stream
+   (strict mode), the dynamic message holds that same value (C03 decode_eq_ref + C01) *)
+Theorem pulsar_unpack_pack_files_ref : forall (sch : schema) (names : nat -> str), wf sch = true ->
+  forall (gt gf : registry nat) (fr tr : option (registry nat)) (det : bool) (mid : nat) (v : val) (a : any) (r0 : val),
+  wt_msg sch mid v = true -> unknowns_okb sch mid v = true ->
+  (N.of_nat (val_depth v) < 9999)%N -> (N.of_nat (length (emit sch det mid v)) < two63)%N ->
+  valid_name (names mid) ->
+  p_pack sch names det (mid, v) = Ok a ->
+  lookup nat (resolve nat tr gt) (names mid) = None ->
+  lookup nat (resolve nat fr gf) (names mid) = Some (EMessage mid) ->
+  ref_unmarshal sch false true mid VNil (emit sch det mid v) = Ok r0 ->
+  p_unpack sch names (dyn_ref sch) gt gf (Some a) fr tr = Ok (true, (mid, r0)) /\
+  (if det then canon r0 = canon (norm sch mid v) else r0 = norm sch mid v).
+Proof. exact Pulsar_unpack_pack_files_ref. Qed.
+
+(* the two routes return the SAME value on what was packed *)
+Theorem pulsar_paths_agree : forall (sch : schema) (names : nat -> str), wf sch = true ->
+  forall (gt gf : registry nat) (fr tr tr' : option (registry nat)) (det : bool) (mid : nat) (v : val) (a : any),
+  wt_msg sch mid v = true -> unknowns_okb sch mid v = true ->
+  (N.of_nat (val_depth v) < 9999)%N -> (N.of_nat (length (emit sch det mid v)) < two63)%N ->
+  valid_name (names mid) ->
+  p_pack sch names det (mid, v) = Ok a ->
+  lookup nat (resolve nat tr gt) (names mid) = Some (EMessage mid) ->
+  lookup nat (resolve nat tr' gt) (names mid) = None ->
+  lookup nat (resolve nat fr gf) (names mid) = Some (EMessage mid) ->
+  exists r, p_unpack sch names (dyn_pulsar sch) gt gf (Some a) fr tr = Ok (false, (mid, r)) /\
+            p_unpack sch names (dyn_pulsar sch) gt gf (Some a) fr tr' = Ok (true, (mid, r)) /\
+            (if det then canon r = canon (norm sch mid v) else r = norm sch mid v).
+Proof. exact Pulsar_paths_agree. Qed.
+
+(* ... and on ANY value bytes (packed by anyone) that are a well-typed stream for the named message: the generated
+   type decoded by the pulsar loop and the dynamic message decoded by the reference decoder hold the same value (C03) *)
+Theorem pulsar_paths_agree_any : forall (sch : schema) (names : nat -> str), wf sch = true ->
+  forall (gt gf : registry nat) (fr tr tr' : option (registry nat)) (mid : nat) (u : str) (b : list byte) (r : val),
+  valid_name (names mid) -> u = names mid \/ u = slash :: names mid ->
+  (Z.of_nat (length b) < Z.of_N two63)%Z ->
+  ref_unmarshal sch false true mid VNil b = Ok r ->
+  lookup nat (resolve nat tr gt) (names mid) = Some (EMessage mid) ->
+  lookup nat (resolve nat tr' gt) (names mid) = None ->
+  lookup nat (resolve nat fr gf) (names mid) = Some (EMessage mid) ->
+  p_unpack sch names (dyn_ref sch) gt gf (Some {| type_url := u; value := b |}) fr tr = Ok (false, (mid, r)) /\
+  p_unpack sch names (dyn_ref sch) gt gf (Some {| type_url := u; value := b |}) fr tr' = Ok (true, (mid, r)).
+Proof. exact P_paths_agree_any. Qed.
+
+(* Unpack never panics: every Any (nil included), every URL, every value bytes, every resolver configuration whose
+   registries name message types of the schema; the dynamic decoder is any function that does not panic on those *)
+Theorem pulsar_unpack_total : forall (sch : schema) (names : nat -> str), wf sch = true ->
+  forall (dynu : nat -> list byte -> outcome val) (gt gf : registry nat) (a : option any) (fr tr : option (registry nat)),
+  (forall n d, lookup nat (resolve nat tr gt) n = Some (EMessage d) -> (d < length sch)%nat) ->
+  (forall n d, lookup nat (resolve nat fr gf) n = Some (EMessage d) -> (d < length sch)%nat) ->
+  (forall d b, (d < length sch)%nat -> dynu d b <> Panic) ->
+  p_unpack sch names dynu gt gf a fr tr <> Panic.
+Proof. exact P_unpack_total. Qed.
+
+(* closed form (pulsar loop on both routes), with termination: a message or an error, nothing else *)
+Theorem pulsar_unpack_returns : forall (sch : schema) (names : nat -> str), wf sch = true ->
+  forall (gt gf : registry nat) (a : option any) (fr tr : option (registry nat)),
+  (forall n d, lookup nat (resolve nat tr gt) n = Some (EMessage d) -> (d < length sch)%nat) ->
+  (forall n d, lookup nat (resolve nat fr gf) n = Some (EMessage d) -> (d < length sch)%nat) ->
+  (forall a', a = Some a' -> (Z.of_nat (length (value a')) < Z.of_N two63)%Z) ->
+  (exists im, p_unpack sch names (dyn_pulsar sch) gt gf a fr tr = Ok im) \/
+  p_unpack sch names (dyn_pulsar sch) gt gf a fr tr = Err.
+Proof. exact P_unpack_returns. Qed.
+
+(* non-vacuity of the end-to-end statements: the premises hold of the demo schema and value, and the instance computes *)
+Example pulsar_instance_example :
+  let a := {| type_url := [x2f; x70; x2e; x42]; value := [x3a; x05; x08; x05; x12; x01; x61] |} in
+  wf demo_sch = true /\ wt_msg demo_sch 1 (snd demo_value) = true /\ unknowns_okb demo_sch 1 (snd demo_value) = true /\
+  (N.of_nat (val_depth (snd demo_value)) < 9999)%N /\ (N.of_nat (length (emit demo_sch true 1 (snd demo_value))) < two63)%N /\
+  p_pack demo_sch demo_name true demo_value = Ok a /\
+  p_unpack demo_sch demo_name (dyn_ref demo_sch) demo_types demo_files (Some a) None None = Ok (false, (1%nat, norm demo_sch 1 (snd demo_value))) /\
+  p_unpack demo_sch demo_name (dyn_ref demo_sch) demo_types demo_files (Some a) None (Some []) = Ok (true, (1%nat, norm demo_sch 1 (snd demo_value))) /\
+  p_unpack demo_sch demo_name (dyn_pulsar demo_sch) demo_types demo_files (Some {| type_url := [x2f; x70; x2e; x42]; value := [xff] |}) None None = Err.
 Proof. vm_compute. repeat split. Qed.
